@@ -19,8 +19,11 @@ RULE = ("(a) kernel level: rebuilt Cython kernel and Python reference kernel on 
         "distinct = distinct canonical inputs.")
 
 
-def additive_utility(I, U, nulls):
+def additive_utility(I, U, nulls, keep=False):
+    """element-wise table utility.  keep: the utility hands out THE SAME float arrays on every call (a utility that precomputes / caches its tables), so a caller
+    that writes into what it was given corrupts the utility for the next evaluation"""
     Utility = I["utility"].Utility
+    kept_U, kept_n = np.array(U, dtype=float), np.array(nulls, dtype=float)
 
     class TableElementwise(Utility):
         def __call__(self, *a, **k):
@@ -33,10 +36,10 @@ def additive_utility(I, U, nulls):
             raise NotImplementedError
 
         def elementwise_score(self, X_train, y_train, X_test, y_test, metadata_train=None, metadata_test=None):
-            return np.array(U, dtype=float)
+            return kept_U if keep else np.array(U, dtype=float)
 
         def elementwise_null_score(self, X_train, y_train, X_test, y_test, metadata_train=None, metadata_test=None):
-            return np.array(nulls, dtype=float)
+            return kept_n if keep else np.array(nulls, dtype=float)
     return TableElementwise()
 
 
@@ -183,7 +186,7 @@ def part_c(ctx, I, budget):
     cases = 50 if ctx.tier == "quick" else 400
     for it in range(cases):
         n_units = rng.randint(1, 7)
-        mode = rng.choice(["default", "groups", "fork", "edited", "multicand"])
+        mode = rng.choice(["default", "groups", "fork", "edited", "multicand", "derived"])
         if mode == "edited" and n_units < 2:
             mode = "default"
         mc = None
@@ -203,6 +206,21 @@ def part_c(ctx, I, budget):
                 groups[rng.randrange(n_units)] = rng.randrange(n_units)
             if groups == list(range(n_units)):
                 groups[0] = 1
+        elif mode == "derived":
+            # a provenance DERIVED from the default one-row-per-unit object by selecting rows: same-length permutations, reversed slices, bootstrap
+            # resamples (repeats: some units own several rows, some none), shorter and longer selections
+            kind_ = rng.choice(["perm", "reverse", "resample", "resample", "subset", "longer"])
+            if kind_ == "perm":
+                groups = rng.sample(range(n_units), n_units)
+            elif kind_ == "reverse":
+                groups = list(range(n_units - 1, -1, -1))
+            elif kind_ == "resample":
+                groups = [rng.randrange(n_units) for _ in range(n_units)]
+            elif kind_ == "subset":
+                groups = sorted(rng.sample(range(n_units), rng.randint(1, n_units)))
+            else:
+                groups = [rng.randrange(n_units) for _ in range(n_units + rng.randint(1, 3))]
+            n_rows = len(groups)
         elif mode == "multicand":
             # every row carries one literal (unit == candidate) with one of >= 2 non-null candidates; only the rows whose candidate is the world's
             # candidate of their unit belong to the training set when that unit is present
@@ -222,7 +240,7 @@ def part_c(ctx, I, budget):
         y_test = [rng.choice(classes) for _ in range(m)]
         dist = np.array(gen.tied_distances(rng, n_rows, m) if ties else gen.distinct_distances(rng, n_rows, m), dtype=float)
         # (edited and multi-candidate modes may leave units without rows: they sit at infinity themselves)
-        dkind = kern.extend_distances(rng, dist, ties) if mode not in ("edited", "multicand") else "plain"
+        dkind = kern.extend_distances(rng, dist, ties) if mode not in ("edited", "multicand", "derived") else "plain"
         ukind = rng.choice(["accuracy", "custom"])
         X = np.arange(n_rows, dtype=float).reshape(-1, 1)
         Xv = np.arange(m, dtype=float).reshape(-1, 1)
@@ -255,6 +273,12 @@ def part_c(ctx, I, budget):
             ids = [idpool[g] for g in groups]
             provenance = np.array(ids)
             preq = {"nUnits": n_units, "groups": ids}
+            simple = False
+        elif mode == "derived":
+            base = P.Provenance(units=n_units)
+            how = rng.choice(["list", "array", "slice"]) if groups == list(range(n_units - 1, -1, -1)) else rng.choice(["list", "array"])
+            provenance = base[::-1] if how == "slice" else (base[list(groups)] if how == "list" else base[np.array(groups, dtype=int)])
+            preq = {"nUnits": n_units, "exprs": [{"eq": [g_, 1]} for g_ in groups]}        # all n_units units exist, whether or not a selected row mentions them
             simple = False
         elif mode == "edited":
             from props.common import UView
